@@ -36,9 +36,14 @@ def unhex(s):
     return -int(s[1:], 16) if s.startswith("-") else int(s, 16)
 
 
+def _limit_child():
+    import resource
+    resource.setrlimit(resource.RLIMIT_AS, (6 << 30, 6 << 30))     # a runaway shift must not eat the machine
+
+
 def _run_shard(lines):
     p = subprocess.run([MODEL_DRIVER], input="\n".join(lines) + "\n", capture_output=True,
-                       text=True, timeout=3600)
+                       text=True, timeout=900, preexec_fn=_limit_child)
     if p.returncode != 0:
         raise RuntimeError("model driver failed: " + p.stderr[:500])
     out = p.stdout.split("\n")
